@@ -97,6 +97,11 @@ def main(tier, replay=None):
         new_g = sorted(f for f in list_files(W.garble) if f not in before_g)
         new_go = sorted(f for f in list_files(W.go) if f not in before_go and not f.endswith("trim.txt"))
         linker = sorted(f for f in list_files(W.garble) if f.startswith("tool"))
+        if not new_g:
+            # the shared accelerator caches under /var/tmp/gv-cache already held this very module (someone built it there by hand):
+            # the entry faults below would then be vacuous; say so instead of passing silently
+            chk.log("warning: the base caches already contain the test module; only linker and whole-cache faults are exercised (remove /var/tmp/gv-cache and run ./setup.sh)")
+            chk.assumptions.append("DEGENERATE RUN: the base caches already contained the test module, so no per-entry fault was exercised")
         targets = [("garble", f) for f in new_g] + [("garble", f) for f in linker]
         go_sample = new_go if tier == "thorough" else rnd.sample(new_go, min(6, len(new_go)))
         targets += [("go", f) for f in go_sample]
